@@ -437,6 +437,47 @@ func LongEdges(r *rand.Rand) IG {
 	return IG{n, e, "F14-long-edges"}
 }
 
+// DeepPath is family F15: one directed path of 1030-1500 nodes listed from its top (so that every depth-first walk of the
+// library descends more than 1024 levels before it returns), with a few side leaves and, if back > 0, that many edges
+// from a node of the path to an earlier one (each closes a cycle; short ones near the top, long ones anywhere). Thresholds on
+// recursion depth, layer count or path length show only here. Half of the instances keep the extras at the end of the
+// edge list, the other half insert them at random places.
+func DeepPath(r *rand.Rand, back int) IG {
+	l := 1030 + r.Intn(471)
+	var e [][2]int
+	for i := 0; i+1 < l; i++ {
+		e = append(e, [2]int{i, i + 1})
+	}
+	n := l
+	var extra [][2]int
+	for k := r.Intn(6); k > 0; k-- { // side leaves
+		extra = append(extra, [2]int{r.Intn(l), n})
+		n++
+	}
+	for k := 0; k < back; k++ {
+		var a, b int
+		if k == 0 {
+			a = r.Intn(4)
+			b = a + 1 + r.Intn(5)
+		} else {
+			a = r.Intn(l - 1)
+			b = a + 1 + r.Intn(l-1-a)
+		}
+		extra = append(extra, [2]int{b, a})
+	}
+	if r.Intn(2) == 0 {
+		e = append(e, extra...)
+	} else {
+		for _, x := range extra {
+			at := r.Intn(len(e) + 1)
+			e = append(e, [2]int{})
+			copy(e[at+1:], e[at:])
+			e[at] = x
+		}
+	}
+	return IG{n, e, "F15-deep-path"}
+}
+
 // Coincidence is family F11: structures aimed at the mechanisms named in the properties.
 func Coincidence(r *rand.Rand) IG {
 	if r.Intn(4) == 0 {
